@@ -795,6 +795,9 @@ class Interp:
                     lvp = self.lv(cur, fid, s['place'])
                     if root_of(lvp)[0] != 'local':
                         self.event('store', cur, fid, bi, s.get('span'), lv=lvp, val=v, extra={'via': 'assign', 'exp': s.get('exp')})
+                    elif lvp[0] == 'fld':
+                        # field of a local struct (e.g. a drop guard's cursor): visible to typestate rules only
+                        self.event('lstore', cur, fid, bi, s.get('span'), lv=lvp, val=v, extra={'via': 'assign', 'exp': s.get('exp')})
                     self.write(cur, lvp, v)
                 elif s['k'] == 'intrinsic':
                     pass
